@@ -25,16 +25,16 @@ Definition sections (fp : list caction) : nat := sections_from 0 fp.
 
 (** The calls that are NOT a single critical section, with the number of sections they have in the
     pinned tree (each documented in docs/C02.md "atomic steps"): adding a bar to a MultiProgress
-    (`internalize`: slot allocation under the multi lock, then `set_draw_target` under the bar
-    lock) - two steps in which the new bar is not yet drawn; insert_before/after additionally read
+    (`internalize`: membership test under the bar lock (fix bee77c9), slot allocation under the multi
+    lock, then `set_draw_target` under the bar lock) - three steps in which the new bar is not yet drawn; insert_before/after additionally read
     the reference bar's index first; dropping the last handle (final draw, then mark_zombie); the
     ticker thread's loop. Every other call must be one bracket. *)
 Definition allowed_sections (name : string) : nat :=
-  if String.eqb name "MultiProgress::add" then 2
-  else if String.eqb name "MultiProgress::insert" then 2
-  else if String.eqb name "MultiProgress::insert_from_back" then 2
-  else if String.eqb name "MultiProgress::insert_after" then 3
-  else if String.eqb name "MultiProgress::insert_before" then 3
+  if String.eqb name "MultiProgress::add" then 3
+  else if String.eqb name "MultiProgress::insert" then 3
+  else if String.eqb name "MultiProgress::insert_from_back" then 3
+  else if String.eqb name "MultiProgress::insert_after" then 4
+  else if String.eqb name "MultiProgress::insert_before" then 4
   else if String.eqb name "ProgressBar::drop" then 3
   else if String.eqb name "BarState::drop:drop" then 3
   else if String.eqb name "TickerControl::run" then 4
